@@ -126,8 +126,14 @@ func c09Prelude(env container.Environment, kind string) error {
 		for i := 0; i < n; i++ {
 			s.Add("fork{")
 			s.Add("sigign")
+			if kind == "orphans-many" {
+				s.Add("touch:2") // an address space worth tearing down: killing and reaping 150 of them takes the init milliseconds
+			}
 			s.Add("sleep:100000")
 			s.Add("}")
+		}
+		if kind == "orphans-many" {
+			s.Add("sleep:30") // let them get there
 		}
 		s.Add("exit:0")
 	default:
